@@ -1203,7 +1203,9 @@ main(int argc, char *argv[])
             if (sscanf(line, "%*s %s", arg) != 1)
                 return 3;
             s = vt_unhex(arg, NULL);
-            fprintf(vt_out, "{\"e\":\"SetCmn\",\"ret\":%d}\n", decoder_set_cmn(d, s));
+            fprintf(vt_out, "{\"e\":\"SetCmn\",\"v\":");
+            vt_str(vt_out, s);
+            fprintf(vt_out, ",\"ret\":%d}\n", decoder_set_cmn(d, s));
             free(s);
         } else if (!strcmp(cmd, "getcmn")) {
             fprintf(vt_out, "{\"e\":\"Cmn\",\"v\":");
